@@ -277,6 +277,30 @@ pub fn apply(op: usize, s: &mut TypeSpec, d: &mut Dna) -> Option<Fault> {
             if b >= a {
                 b += 1;
             }
+            // second form: field `a` takes the explicit rank `isize::MIN + b` while field `b` (before or after it) keeps that
+            // value as its default rank
+            let is_ord = |x: &FAttr| x.tr == Tr::Ord || x.tr == Tr::PartialOrd;
+            if d.chance(35) {
+                {
+                    let fb = &mut s.variants[vi].fields[b];
+                    let method = fb.method(Tr::Ord).map(|m| m.to_string());
+                    fb.attrs.retain(|x| !is_ord(x));
+                    if let Some(m) = method {
+                        fb.attrs.push(FAttr { tr: ord_name, into_ty: None, params: vec![(FParam::Method(m), d.byte())], sp: 0 });
+                    }
+                }
+                let r = isize::MIN as i64 + b as i64;
+                let fa = &mut s.variants[vi].fields[a];
+                let method = fa.method(Tr::Ord).map(|m| m.to_string());
+                fa.attrs.retain(|x| !is_ord(x));
+                let mut ps = vec![(FParam::Rank(r), d.byte())];
+                if let Some(m) = method {
+                    ps.push((FParam::Method(m), d.byte()));
+                }
+                fa.attrs.push(FAttr { tr: ord_name, into_ty: None, params: ps, sp: 0 });
+                let order = if a < b { "before" } else { "after" };
+                return mk(3, format!("explicit rank isize::MIN+{b} on field {a} of variant {vi}, {order} field {b} that uses it as its default"), format!("field/default-{order}/{}", ord_name.name()));
+            }
             let r: i64 = [0, -3, 5, 7, -1][d.pick(5)];
             for fi in [a, b] {
                 let f = &mut s.variants[vi].fields[fi];
@@ -411,7 +435,7 @@ pub fn apply(op: usize, s: &mut TypeSpec, d: &mut Dna) -> Option<Fault> {
                         }
                     }
                 }
-                let same = v.fields.iter().filter(|f| crate::known::erase_lifetimes(&f.ty.src) == crate::known::erase_lifetimes(&t)).count();
+                let same = v.fields.iter().filter(|f| crate::known::into_key(&f.ty.src) == crate::known::into_key(&t)).count();
                 // either no candidate at all or two same-typed ones; exactly one would be found automatically
                 if same == 1 {
                     return None;
